@@ -99,6 +99,20 @@ def make_sequences(n, sites, rng, style):
     return ["".join(cols[k][i] for k in range(sites)) for i in range(n)]
 
 
+def _site_model(recipe):
+    """constant | invariant (a zero-rate category) | Weibull(K) | Weibull(K) + invariant"""
+    K, inv = recipe.get("categories", 1), recipe.get("invariant")
+    pinv = {"id": "pinv", "type": "Parameter", "tensor": [inv]} if inv else None
+    if K == 1 and not inv:
+        return {"id": "sitemodel", "type": "ConstantSiteModel"}
+    if K == 1:
+        return {"id": "sitemodel", "type": "InvariantSiteModel", "invariant": pinv}
+    sm = {"id": "sitemodel", "type": "WeibullSiteModel", "categories": K, "shape": {"id": "shape", "type": "Parameter", "tensor": [recipe.get("shape_value", 0.7)]}}
+    if inv:
+        sm["invariant"] = pinv
+    return sm
+
+
 def build_spec(recipe):
     rng = Rng(recipe["data_seed"])
     n, sites = recipe["taxa"], recipe["sites"]
@@ -118,9 +132,7 @@ def build_spec(recipe):
         {"id": "like", "type": "TreeLikelihoodModel",
          "tree_model": {"id": "tree", "type": "UnRootedTreeModel", "newick": newick, "taxa": "taxa",
                         "branch_lengths": {"id": "blens", "type": "Parameter", "tensor": base}},
-         "site_model": ({"id": "sitemodel", "type": "ConstantSiteModel"} if recipe.get("categories", 1) == 1 else
-                        {"id": "sitemodel", "type": "WeibullSiteModel", "categories": recipe["categories"],
-                         "shape": {"id": "shape", "type": "Parameter", "tensor": [recipe.get("shape_value", 0.7)]}}),
+         "site_model": _site_model(recipe),
          "substitution_model": subst,
          "site_pattern": {"id": "patterns", "type": "SitePattern", "alignment": "alignment"},
          "use_tip_states": bool(recipe.get("tip_states", False))},
@@ -169,7 +181,7 @@ class Machine:
         if key not in self._ref_cache:
             bl = np.asarray(self.base) * scale
             pi = self.recipe.get("freqs", [0.3, 0.2, 0.15, 0.35])
-            if self.recipe.get("categories", 1) == 1:
+            if self.recipe.get("categories", 1) == 1 and not self.recipe.get("invariant"):
                 sl = refprune.site_log_likelihoods(self.postorder, self.n, bl, self.seqs, self.recipe["model"], kappa, pi)
             else:
                 # category rates / proportions are inputs of the reference (they are property C05);
@@ -264,7 +276,7 @@ class Machine:
                 if math.isfinite(t) and math.isfinite(v) and abs(t - v) > 1e-8 * abs(ref):
                     self.violate("twin", flag_before, band, "row %d: model %.12g and always-rescaled twin %.12g disagree" % (r, v, t), batched)
                     ok = False
-        state = "%s|%s|%s|%s|K%d" % ("R" if flag_before else "P", "batched" if batched else "single", "+".join(sorted(set(bands))), "states" if self.recipe.get("tip_states") else "partials", self.recipe.get("categories", 1))
+        state = "%s|%s|%s|%s|K%d" % ("R" if flag_before else "P", "batched" if batched else "single", "+".join(sorted(set(bands))), "states" if self.recipe.get("tip_states") else "partials", self.recipe.get("categories", 1) + (1 if self.recipe.get("invariant") else 0))
         self.states.append("%s -> %s" % (self.prev_state, state))
         self.prev_state = state
         return ok
@@ -326,7 +338,7 @@ def generate(seed, index, tier):
         taxa = k.choice([1100, 1200]) if k.bernoulli(0.5) or tier == "thorough" else taxa
     recipe = {"taxa": taxa, "sites": k.randint(6, 24) if taxa < 1000 else k.randint(4, 8), "shape": k.choice(["caterpillar", "balanced", "random"]) if style != "clade" else k.choice(["caterpillar", "balanced"]), "style": style,
               "model": k.choice(["JC69", "HKY"]), "tip_states": k.bernoulli(0.4), "data_seed": k.next64() & 0xFFFFFFFF, "kappa": round(k.uniform(0.5, 6.0), 3),
-              "categories": k.choice([1, 1, 2, 4]), "shape_value": round(k.uniform(0.3, 2.0), 3)}
+              "categories": k.choice([1, 1, 2, 4]), "shape_value": round(k.uniform(0.3, 2.0), 3), "invariant": k.choice([None, None, 0.2, 0.5])}
     m = Machine(recipe, EventLog())
     sc = find_scales(m, recipe["kappa"])
     avail = [b for b in ("normal", "subnormal", "underflow") if sc[b] is not None]
